@@ -36,11 +36,13 @@ theorem transportSubscribe_tie : transportSubscribe =
     ["t.getOrDial",
      "if err!=nil",
      "return",
+     "if err!=nil&&errors.Is()&&attempt<3",
      "return"] := by decide +kernel
 
 theorem removeConn_tie : removeConn =
     ["t.mu.Lock",
      "defer:t.mu.Unlock",
+     "if t.conns[]==conn",
      "delete"] := by decide +kernel
 
 theorem connKey_tie : connKey =
@@ -62,8 +64,9 @@ theorem connKey_tie : connKey =
 
 theorem connSubscribe_tie : connSubscribe =
     ["c.subsMu.Lock",
-     "if c.closed.Load()",
+     "if c.closed.Load()||c.closing.Load()",
      "c.closed.Load",
+     "c.closing.Load",
      "c.subsMu.Unlock",
      "return",
      "if exists",
@@ -87,13 +90,8 @@ theorem removeSub_tie : removeSub =
      "c.subsMu.Unlock",
      "if isEmpty",
      "if c.idleTimeout>0",
-     "c.subsMu.RLock",
-     "len",
-     "c.subsMu.RUnlock",
-     "if stillEmpty",
-     "c.closeConn",
      "time.AfterFunc",
-     "c.closeConn"] := by decide +kernel
+     "c.closeIfEmpty"] := by decide +kernel
 
 theorem unsubscribe_tie : unsubscribe =
     ["c.subsMu.Lock",
